@@ -104,7 +104,7 @@ def configs(tier, seed):
         sel = all2
         all3 = trees(3)
         sel = sel + rnd.sample(all3, 400)
-    chunk = 25
+    chunk = 4
     sel = list(dict.fromkeys(sel))
     for field in ('real', 'complex'):
         for sp in ('plain', 'weighted'):
